@@ -3,7 +3,7 @@
 From ClapModel Require Import Base.Bytes Base.Machine.
 From ClapModel Require Import Parse.Cmd Parse.Build Parse.Valid Parse.Matcher Parse.Errors Parse.Validator Parse.Parser.
 From ClapModel Require Import ParseProofs.Totality ParseProofs.Actions ParseProofs.Unparse ParseProofs.UnparseTop ParseProofs.UnparseTrail
-                              ParseProofs.UnparseTree ParseProofs.KindSound ParseProofs.SourcesLine ParseProofs.SourcesDefaults ParseProofs.SourcesLineExamples.
+                              ParseProofs.UnparseTree ParseProofs.KindSound ParseProofs.SourcesLine ParseProofs.SourcesDefaults ParseProofs.Globals ParseProofs.SourcesLineGlobals ParseProofs.SourcesLineExamples.
 From ClapModel Require Import Sources.Present ParseProofs.Sources Gen.ActionDefaults.
 From Coq Require Import ZArith List.
 From RecordUpdate Require Import RecordSet.
@@ -525,3 +525,35 @@ Proof.
   split; [exact H1|]. split; [exact H2|]. split; [exact H3|]. split; [exact H4|]. split; [exact H5|]. exact SrcEx.ex_ni_parse.
 Qed.
 Print Assumptions C06_defaults_noninterference_nonvacuous.
+
+(** (2, with global arguments) THE ORIGIN THEOREM at [parse_top] for ANY well-formed tree.  [_do_parse]
+    ends with the merge of global values (C09): there is one final map [vmF], with pairwise distinct
+    keys that are all ids of global arguments used on the chain, such that at every level reached
+    ([at_level2]: the invocation, the parser's matches [m'] and the reported matches [p'] walked in
+    step) the parser's own matches have the origin [level_origin] prescribes and the reported
+    entry of an id is [vmF]'s entry if it is a key, otherwise exactly the parser's entry.
+    (Which entry [vmF] holds: C09_globals -- the most explicit, deepest of the chain's own entries.) *)
+Theorem C06_origin_globals : forall c0 bin i mp, is_set s_no_binary_name c0 = false ->
+  valid (with_bin c0 bin) = true -> wf_inv (build_self (with_bin c0 bin)) i = true ->
+  parse_top c0 (bin :: render_inv i) = OOk mp ->
+  exists st vmF, run_inv (build_self (with_bin c0 bin)) i = ROk st /\ NoDup (map fst vmF)
+    /\ (forall g, mem_id g (used_global_args (S (matches_depth (into_inner (mt st))))
+                              (build_recursive (S (S (depth (build_self (with_bin c0 bin))))) (with_bin c0 bin))
+                              (into_inner (mt st))) = false -> fm_get g vmF = None)
+    /\ forall c' i' m' p', at_level2 (build_self (with_bin c0 bin)) i (into_inner (mt st)) mp c' i' m' p' ->
+         (exists st', m' = into_inner (mt st') /\ level_origin c' (inv_occs c' i') st')
+         /\ (forall k, fm_get k (ms_args p') = match fm_get k vmF with Some e => Some e | None => fm_get k (ms_args m') end).
+Proof. exact parse_top_origin_globals. Qed.
+Print Assumptions C06_origin_globals.
+
+(** Non-vacuity: a tree with a global argument, [prog --nn=V run --gl=S --zz]: the parser stores
+    [gl] = "0" (DefaultValue) at the root, the reported root entry is the subcommand's CommandLine "S". *)
+Theorem C06_origin_globals_nonvacuous :
+  valid (with_bin SrcEx.t3 SrcEx.tbin) = true /\ wf_inv SrcEx.cb3 SrcEx.ginv = true /\
+  no_globals (build_recursive (S (S (depth SrcEx.cb3))) (with_bin SrcEx.t3 SrcEx.tbin)) = false /\
+  parse_top SrcEx.t3 (SrcEx.tbin :: render_inv SrcEx.ginv) = OOk SrcEx.gmp /\ run_inv SrcEx.cb3 SrcEx.ginv = ROk SrcEx.gst /\
+  SrcEx.summary (into_inner (mt SrcEx.gst)) = [([110], Some SCmdLine, [[[86]]]); ([97], Some SEnv, [[[69;49]]]); ([103;108], Some SDefault, [[[48]]])] /\
+  SrcEx.summary SrcEx.gmp = [([110], Some SCmdLine, [[[86]]]); ([97], Some SEnv, [[[69;49]]]); ([103;108], Some SCmdLine, [[[83]]])] /\
+  at_level2 SrcEx.cb3 SrcEx.ginv (into_inner (mt SrcEx.gst)) SrcEx.gmp SrcEx.cb3 SrcEx.ginv (into_inner (mt SrcEx.gst)) SrcEx.gmp.
+Proof. exact SrcEx.ex_globals. Qed.
+Print Assumptions C06_origin_globals_nonvacuous.
